@@ -662,7 +662,7 @@ func checkC12(c *Ctx) {
 	must(os.WriteFile(filepath.Join(defRoot, "etc", "d.json"), specBytes(genSpec(rand.New(rand.NewSource(1)), SpecGen{Vendor: "vendor.com", Class: "gpu", DevNames: []string{"dev0"}, Plain: true, Marker: "def"}), "json"), 0o644))
 	cdi.DefaultSpecDirs = []string{filepath.Join(defRoot, "etc"), filepath.Join(defRoot, "run")}
 	defer func() { cdi.Configure(cdi.WithAutoRefresh(false)) }()
-	if c.replayCase == "" || strings.HasPrefix(c.replayCase, "stress") {
+	if c.replayCase == "" || strings.HasPrefix(c.replayCase, "stress") || c.replayCase == "race" {
 		runs := c.pick(2, 8)
 		total := map[string]int{}
 		for i := 0; i < runs; i++ {
